@@ -61,7 +61,7 @@ def write_variant(ds, d, rng, identity, conflict=False):
     return paths, nonid
 
 
-COMMANDS = [["-m", "mae", "-x", "leadtime"], ["-m", "bias", "-x", "time"], ["-m", "rmse", "-x", "location"],
+COMMANDS = [["-m", "mae", "-x", "leadtime"], ["-m", "bias", "-x", "time"], ["-m", "obs", "-x", "location"],
             ["-m", "corr", "-x", "no"], ["-m", "obs", "-x", "month", "-agg", "sum"], ["-m", "fcst", "-x", "lat", "-agg", "max"],
             ["-m", "mae", "-x", "leadtimeday", "-agg", "count"], ["-m", "ets", "-r", "5", "-x", "leadtime"]]
 
@@ -74,6 +74,14 @@ def run_case(ctx, rng, ci):
                           some_without_obs=rng.random() < 0.35)
     if any("obs" not in i["has"] for i in ds["inputs"]):
         ctx.count("families_with_borrowed_observations")
+    if rng.random() < 0.4 and all("obs" in i["has"] for i in ds["inputs"]):
+        # files from different sources may store different observations for the same case: each input is scored on its own
+        # (not combined with files that have no observations: which file's they borrow is then a matter of command-line order)
+        for j, inp in enumerate(ds["inputs"][1:]):
+            for c in inp["cells"].values():
+                if c.get("obs") is not None and rng.random() < 0.5:
+                    c["obs"] = c["obs"] + 0.125 * (j + 1)
+        ctx.count("families_with_different_observations")
     F = len(ds["inputs"])
     base = os.path.join(ctx.workdir, "c%d" % ci)
     pa, _ = write_variant(ds, os.path.join(base, "a"), rng, True)
